@@ -96,7 +96,13 @@ def c16_b(ctx):
         for c in calls:
             n += 1
             kws = dict((k.arg, ex.term(k.value)) for k in c.keywords)
-            ok = kws.get('weights') == pattern_term('self.weights')
+            # np.average(a, axis, weights) and weighted_sample_quantile(x, alpha, weights):
+            # `weights` is the third positional parameter of both
+            wt = kws.get('weights')
+            if wt is None and len(c.args) >= 3 and not any(isinstance(a, ast.Starred)
+                                                           for a in c.args):
+                wt = ex.term(c.args[2])
+            ok = wt == pattern_term('self.weights')
             ctx.check(ok, m, 'weights passed', src(c)[:60],
                       '`{}` does not use weights=self.weights'.format(src(c)[:70]), fn=m, node=c)
             x = ex.term(c.args[0]) if c.args else kws.get('x')
